@@ -348,4 +348,34 @@ def m_path_accuracy(d):
     return obs <= exp + 1e-12 * exp and exp - obs <= env
 
 
-MATCHERS = {"subdivision_accuracy": m_subdivision_accuracy, "path_accuracy": m_path_accuracy}
+def m_collinear_fold(d):
+    """input class: a CubicBezier whose four control points are collinear and which reverses direction inside (0,1)
+    (a degenerate fold-back); pinned failure: the result is short of the true length by at most 1e-6 x the length,
+    independently of the requested error (a leaf whose three samples are collinear and ordered is accepted although
+    the curve runs to the fold tip and back between them)"""
+    t = d["tags"]
+    if t.get("kind") not in ("accuracy", "invariance") or t.get("segkind") != "CubicBezier":
+        return False
+    kind, prm = CURVES.get(t.get("curve"), (None, None))
+    if kind != "C":
+        return False
+    (x0, y0), (x1, y1), (x2, y2), (x3, y3) = prm
+    dx, dy = x3 - x0, y3 - y0
+    if dx == 0 and dy == 0:
+        dx, dy = x1 - x0, y1 - y0
+    col = all(abs((px - x0) * dy - (py - y0) * dx) < 1e-12 for px, py in ((x1, y1), (x2, y2), (x3, y3)))
+    if not col:
+        return False
+    ref = bz.Cubic(*prm)
+    folds = [u for a in (0, 1) for u in ref.extrema_t(a) if 0 < u < 1]
+    if not folds:
+        return False
+    exp, obs = d["expected"], d["observed"]
+    if exp is None or obs is None or exp <= 0:
+        return False
+    if t["kind"] == "accuracy":
+        return obs <= exp * (1 + 1e-12) and exp - obs <= 1e-6 * exp
+    return abs(exp - obs) <= 1e-6 * exp
+
+
+MATCHERS = {"subdivision_accuracy": m_subdivision_accuracy, "path_accuracy": m_path_accuracy, "collinear_fold": m_collinear_fold}
